@@ -33,7 +33,7 @@ import (
 // indexSF matters.
 const indexSFKey = "populate"
 
-// reindexSFKey is the singleflight key used by [ObjectStorage.Reindex]
+// reindexSFKey was the singleflight key used by [ObjectStorage.Reindex]
 // to collapse concurrent rescans. Kept distinct from indexSFKey so a
 // cold first-load and an externally-driven rescan do not deduplicate
 // against each other.
@@ -72,6 +72,17 @@ type ObjectStorage struct {
 	// indexSF coalesces concurrent first-readers so populateIndex
 	// runs once per cold-load even under thundering-herd contention.
 	indexSF singleflight.Group
+
+	// Reindex coalescing. A caller may only reuse a rescan that began
+	// after its own call: a rescan already in flight may have listed
+	// the pack directory before the change the caller wants picked up.
+	// reindexTicket counts calls; reindexCovered is the ticket count
+	// observed at the start of the last completed rescan (and its
+	// result), both under reindexMu.
+	reindexTicket  atomic.Uint64
+	reindexMu      sync.Mutex
+	reindexCovered uint64
+	reindexErr     error
 
 	// lastHitPackIdx records the s.packs index that served the most
 	// recent successful findObjectInPackfile probe, encoded as the
@@ -291,20 +302,26 @@ func (s *ObjectStorage) requireIndex() error {
 // after the swap so a stale hint cannot misroute a probe against
 // the new slice.
 func (s *ObjectStorage) Reindex() error {
-	_, err, _ := s.indexSF.Do(reindexSFKey, func() (any, error) {
-		local, entries, err := s.populateIndex()
-		if err != nil {
-			return nil, err
-		}
+	ticket := s.reindexTicket.Add(1)
 
+	s.reindexMu.Lock()
+	defer s.reindexMu.Unlock()
+	if s.reindexCovered >= ticket {
+		// A rescan that started after this call was made has already
+		// completed while we waited: its result is ours.
+		return s.reindexErr
+	}
+	covered := s.reindexTicket.Load()
+
+	local, entries, err := s.populateIndex()
+	if err == nil {
 		s.muI.Lock()
 		s.index = local
 		s.packs = entries
 		s.lastHitPackIdx.Store(0)
 		s.muI.Unlock()
-
-		return nil, nil
-	})
+	}
+	s.reindexCovered, s.reindexErr = covered, err
 	return err
 }
 
